@@ -313,6 +313,9 @@ func (g *Gen) Fill(m protoreflect.Message, depth int) {
 		g.left--
 		if force {
 			g.ZeroBias = 0 // a forced field must actually be populated
+			if depth == 0 {
+				g.nestedForce = 2 // per forced field: the nested messages of the root's type below THIS field
+			}
 		}
 		switch {
 		case fd.IsMap():
